@@ -1261,7 +1261,7 @@ func (this *Reader) validateHeaderless() error {
 			return &IOError{msg: errMsg, code: kanzi.ERR_INVALID_PARAM}
 		}
 	} else {
-		this.ctx["bsVersion"] = _BITSTREAM_FORMAT_VERSION
+		this.ctx["bsVersion"] = uint(_BITSTREAM_FORMAT_VERSION)
 	}
 
 	if e, hasKey := this.ctx["entropy"]; hasKey {
